@@ -257,15 +257,8 @@ func (p *pathState) choose(n int, name string) int {
 	if n <= 1 {
 		return 0
 	}
-	b := p.bank()
 	v := p.fresh(name, bvSort(8), "choice")
-	p.assume(b.ULt(v, b.BV(uint64(n), 8)))
-	for k := 0; k < n-1; k++ {
-		if p.decide(b.Eq(v, b.BV(uint64(k), 8))) {
-			return k
-		}
-	}
-	return n - 1
+	return p.chooseFree(v, n)
 }
 
 func (p *pathState) violation(kind, msg string) {
